@@ -239,3 +239,4 @@ class C20Lemma(LemmaUnit):
 
 UNITS = [RunLogger, CollectResult, ChildRunLogging, ProcessRunNoTarget, StartUnit, C20Lemma]
 SCENARIOS = [('', 'replay/scenarios/c20_child_logs.py', (50, 2000)), ('', 'replay/scenarios/c20_child_logs.py', (3000, 200)), ('', 'replay/scenarios/c20_child_logs.py', (0, 1))]
+THOROUGH_SCENARIOS = [('', 'replay/scenarios/c20_child_logs.py', (20000, 100), 300), ('', 'replay/scenarios/c20_child_logs.py', (100, 100000), 300)]
